@@ -596,6 +596,7 @@ func doSearch(t *testing.T) {
 				agg.Violations++
 			}
 			rf := mkReplay(rec, cfg)
+			rf.Proc = &ProcInfo{Seed0: *fSeed0, Worker: *fWorker, Workers: *fWorkers, Start: *fStart, RunNo: i, Recheck: *fRecheck}
 			path := fmt.Sprintf("%s.viol.%d.json", strings.TrimSuffix(*fOut, ".json"), seed)
 			if err := writeJSON(path, rf); err == nil {
 				agg.ViolFiles = append(agg.ViolFiles, path)
